@@ -301,6 +301,9 @@ FNAMES = [x for x in GNAMES if x != "ThermalLossChannel"]
 FNG = list(sfgen.GAUSSIAN_GATES) + ["Kgate", "Vgate", "CKgate", "Fock", "Vacuum", "Coherent", "Squeezed", "DisplacedSqueezed", "Thermal", "LossChannel"]
 HBARS = [1.0, 0.5, 3.0, 1.7]
 MESHES = ["rectangular", "rectangular_phase_end", "rectangular_symmetric", "triangular", "rectangular_compact", "triangular_compact", "sun_compact"]
+# the Fock backend applies MZgate natively, and Gate.apply skips MZgate(0, phi) (recorded finding, corpus/C01-interferometer-symmetric-mzgate-zero.json):
+# a mesh of MZgates meets it whenever a 2 x 2 block of U is diagonal; random Fock-side programs use the other meshes
+FOCK_MESHES = [m for m in MESHES if m != "rectangular_symmetric"]
 TWO_MODE = ["BSgate", "MZgate", "S2gate", "CXgate", "CZgate"]
 # pseudo-operations of this module (on top of sfgen's): name -> how make_op builds them
 EXTRA = ("Interferometer", "GaussianTransform", "GaussianDecomp", "MSgate", "Catstate", "GKP", "MeasureFockSel")
@@ -566,8 +569,23 @@ def cmp_gauss(a, b, tol=1e-8):
     return max(np.abs(a[0] - b[0]).max(), np.abs(a[1] - b[1]).max()) > tol
 
 
+def _mz_zero(c):
+    """An Interferometer whose mesh is made of MZgates and whose decomposition contains MZgate(0, phi): Gate.apply skips that gate on
+    the backends that apply MZgate natively (recorded defect of the MZgate parameter convention)."""
+    try:
+        op = make_op(c[0], c[1])
+        prog = sf.Program(len(c[2]))
+        with prog.context as q:
+            cmds = op._decompose(list(q))
+        return any(type(x.op).__name__ == "MZgate" and x.op.p[0] == 0 for x in cmds)
+    except Exception:
+        return False
+
+
 def sig_ops(spec):
     def nm(c):
+        if c[0] == "Interferometer":
+            return "Interferometer:" + str(c[1][2]) + ("[MZgate@0]" if c[1][2] == "rectangular_symmetric" and _mz_zero(c) else "")
         z = "@0" if (c[0] in sfgen.GAUSSIAN_GATES or c[0] in sfgen.NONGAUSS) and c[1] and c[1][0] == 0 else ""
         return c[0] + z + (".H" if c[3] else "")
     return "+".join(sorted(set(nm(c) for c in spec["cmds"])))
@@ -863,7 +881,7 @@ def gauss_fock_spec(rng):
     cmds = [c for c in bc.weak_prefix(rng, n) if c[0] != "ThermalLossChannel"]
     cmds += [bc.weak_cmd(rng, n, FNAMES) for _ in range(rng.randint(1, 3))]
     if r < 0.32 and n >= 2:
-        cmds.insert(rng.randint(len(cmds) - 1, len(cmds)), interferometer_cmd(rng, n))
+        cmds.insert(rng.randint(len(cmds) - 1, len(cmds)), interferometer_cmd(rng, n, FOCK_MESHES))
     elif r < 0.4:
         cmds.insert(rng.randint(len(cmds) - 1, len(cmds)), gaussian_transform_cmd(rng, n, scale=0.15))
     elif r < 0.5:
@@ -1181,13 +1199,46 @@ def bosonic_fock_spec(rng):
     return {"n": n, "cmds": cmds}, cutoff
 
 
+def energy_ok(spec, cutoff, hbar=2.0):
+    """The photon-number distribution of every mode (mean + 5 sigma + 2, taken from the bosonic simulation of every prefix of the program)
+    fits below the cutoff: only then a deviation of the Fock simulator cannot be put down to truncation."""
+    cmds = [["Sgate", [c[1][0], c[1][1]], c[2], False] if c[0] == "MSgate" else c for c in spec["cmds"]]
+    first = max([i for i, c in enumerate(cmds) if c[0] in NONGAUSS_PREPS] + [0]) + 1
+    for i in range(first, len(cmds) + 1):
+        b = run_x(dict(spec, cmds=cmds[:i]), "bosonic", hbar=hbar)
+        for m in range(spec["n"]):
+            try:
+                mean, var = b.mean_photon(m)
+            except ValueError:
+                continue
+            if float(np.real(mean)) + 5 * math.sqrt(max(0.0, float(np.real(var)))) + 2 > cutoff:
+                return False
+    return True
+
+
 def search_bosonic_fock(ctx):
     rng = ctx.rng
+
+    def cat(m):
+        return ["Catstate", [round(rng.uniform(0.3, 0.8), 3), round(rng.uniform(-math.pi, math.pi), 3), rng.choice([0, 1, 0.5]), "complex"], [m], False]
+
+    def ms(m, kind):
+        c = msgate_cmd(rng, 2, kind)
+        c[1][0], c[2] = round(c[1][0] * 0.4, 3), [m]
+        return c
+    # measurement-based squeezing (ideal ancilla) of and next to a superposition of Gaussians, on either mode of a pair
+    fixed = [({"n": 1, "cmds": [cat(0), ms(0, "single")]}, 16),
+             ({"n": 2, "cmds": [cat(0), ms(0, "single"), bc.weak_cmd(rng, 2, ["BSgate"])]}, 11),
+             ({"n": 2, "cmds": [cat(1), bc.weak_cmd(rng, 2, ["BSgate"]), ms(0, "single")]}, 11),
+             ({"n": 2, "cmds": [cat(0), cat(1), ms(1, "limit"), bc.weak_cmd(rng, 2, ["S2gate"])]}, 11)]
     for it in range(ctx.budget(30, 400)):
-        spec, cutoff = bosonic_fock_spec(rng)
+        spec, cutoff = fixed[it] if it < len(fixed) else bosonic_fock_spec(rng)
         hbar = rng.choice(HBARS) if it % 4 == 1 else 2.0
         data = {"check": "bosonic-fock", "spec": spec, "cutoff": cutoff, "hbar": hbar}
         try:
+            if not energy_ok(spec, cutoff, hbar):
+                ctx.hist["bosonic-fock-skipped-energy"] = ctx.hist.get("bosonic-fock-skipped-energy", 0) + 1
+                continue
             d, tol = bosonic_fock_diff(spec, cutoff, hbar)
         except CaseTimeout:
             ctx.hist["bosonic-fock-skipped-timeout"] = ctx.hist.get("bosonic-fock-skipped-timeout", 0) + 1
